@@ -221,8 +221,8 @@ theorem msg_binds (c c' : List UInt8) (v v' : Vote) (h : msgOf c v = msgOf c' v'
 PROVED PARTIAL: `signBytes_binds_step_fields` (Props/C03SignBytes.lean): for a fixed block id and canonical time the
 sign-bytes determine chain id (through Go's JSON escaping), height, round and type; `signBytes_binds_block_hash`
 (Props/C03BlockId.lean): for votes for a block, the sign-bytes determine chain id and block hash with no assumption on the
-other fields.  What stays open is the injectivity of the parts-header rendering (hex, omitted-when-zero fields), the
-zero/non-zero hash distinction and the time rendering; those are tied only by the byte-for-byte
+other fields; `signBytes_nil_vs_block`: nil votes and block votes never share sign-bytes.  What stays open is the injectivity
+of the parts-header rendering (hex, omitted-when-zero fields) and of the time rendering; those are tied only by the byte-for-byte
 comparison of `signBytes` with `Vote.SignBytes` (op `signbytes`) and the monitor `signbytes_binds`. -/
 def C03_signBytes_binds_statement : Prop :=
   ∀ m m' : Msg, (∀ b ∈ m.chain ++ m'.chain, b.toNat < 128) → m.bid.hash.length = 32 → m'.bid.hash.length = 32 →
